@@ -206,7 +206,7 @@ def do_op(rng, op, pool):
 
 def try_edit(rng, kind, x):
     """-> True if the edit attempt raised."""
-    chunks = x.chunks
+    chunks = getattr(x, "chunks", None)
     if kind == "setitem":
         try:
             x[0] = "e"
@@ -215,7 +215,9 @@ def try_edit(rng, kind, x):
         return False
     if not chunks:
         return True
-    atts = rng.choice(chunks).atts
+    atts = getattr(rng.choice(chunks), "atts", None)
+    if atts is None:
+        return True
     try:
         if kind == "atts_setitem":
             atts["fg"] = 35
